@@ -84,7 +84,18 @@ REDUCE = {
     "len": lambda a: len(a) if isinstance(a, list) else 1,
     "size": lambda a: len(a) if isinstance(a, list) else 1,
 }
+def _deg(x):
+    return x * 180.0 / math.pi
+
+
+def _rad(x):
+    return x * math.pi / 180.0
+
+
+BINARY = {"arctan2": math.atan2, "atan2": math.atan2, "hypot": math.hypot}
 UNARY = {
+    "cos": math.cos, "sin": math.sin, "tan": math.tan, "radians": _rad,
+    "degrees": _deg, "deg2rad": _rad, "rad2deg": _deg,
     "abs": abs, "fabs": abs, "absolute": abs,
     "isfinite": lambda x: math.isfinite(x), "isnan": lambda x: x != x,
     "logical_not": lambda x: not x, "invert": lambda x: not x,
@@ -116,6 +127,9 @@ def ev(e, env):
         return e.value
     if isinstance(e, ast.Attribute) and e.attr in ("T", "real"):
         return ev(e.value, env)
+    if isinstance(e, ast.Attribute) and e.attr == "pi" and \
+            norm(e.value) in ("np", "numpy", "math"):
+        return math.pi
     if isinstance(e, ast.UnaryOp):
         v = ev(e.operand, env)
         if isinstance(e.op, ast.Not):
@@ -230,6 +244,8 @@ def ev(e, env):
             return REDUCE[short](args[0])
         if short in UNARY and len(args) == 1:
             return _u(UNARY[short], args[0])
+        if short in BINARY and len(args) == 2:
+            return _ew(BINARY[short], args[0], args[1])
         if short in ("maximum", "minimum") and len(args) == 2:
             return _ew(max if short == "maximum" else min, *args)
         if short in ("max", "min") and len(args) >= 2 and \
